@@ -7,6 +7,9 @@ require (
 	pgregory.net/rapid v1.3.0
 )
 
-require github.com/goblimey/go-tools v0.0.11 // indirect
+require (
+	github.com/goblimey/go-crc24q v0.0.0-20210107174841-6ea518daa3aa // indirect
+	github.com/goblimey/go-tools v0.0.11 // indirect
+)
 
 replace github.com/goblimey/go-ntrip => /repo
